@@ -62,3 +62,13 @@ Proof.
       by (apply with_grace_unmodified; tauto).
     rewrite H3. reflexivity.
 Qed.
+
+(* and the way there never goes quiet: a reconcile of a deleting object that keeps the finalizer either failed (the work
+   queue retries with back-off) or asked to be woken again; it never waits on a wake-up that will not come *)
+Theorem tr_teardown_never_stalls o n g : to_deleting o = true ->
+  let r := tr_reconcile o n g in ro_own_finalizer r = false \/ ro_err r = true \/ ro_requeue r = true.
+Proof.
+  intros Hd. unfold tr_reconcile. rewrite Hd. cbn iota.
+  destruct (tr_err (finalising_traffic_routing (tr_ctx o) n g)); [right; left; reflexivity|].
+  destruct (tr_ok (finalising_traffic_routing (tr_ctx o) n g)); [left; reflexivity|right; right; reflexivity].
+Qed.
